@@ -47,7 +47,7 @@ fn k_exe_1_previous_iteration() {
 #[cfg_attr(kani, kani::unwind(4))]
 #[cfg_attr(salsa_verif_replay, test)]
 fn k_exe_2_disable_guard() {
-    let local = ZalsaLocal::new();
+    let local = crate::zalsa_local::verif::local_static();
     let cancelled: bool = vk::any();
     let pre: bool = vk::any();
     let cancel_inside: bool = vk::any();
@@ -82,7 +82,7 @@ pub(crate) fn stub_complete_cycle_query(_zalsa: &Zalsa, active_query: ActiveQuer
     CompletedQuery { revisions: crate::zalsa_local::verif::revs(Durability::LOW, Revision::start(), false, crate::zalsa_local::verif::empty_derived()), stale_tracked_structs: Vec::new() }
 }
 fn participant_world(iter: u8, epoch: u8) -> (Zalsa, crate::zalsa_local::ZalsaLocal, IterationStamp) {
-    (crate::zalsa::verif::bare_zalsa(), crate::zalsa_local::ZalsaLocal::new(), crate::cycle::verif::stamp(iter, epoch))
+    (crate::zalsa::verif::bare_zalsa(), crate::zalsa_local::verif::local_static(), crate::cycle::verif::stamp(iter, epoch))
 }
 
 //@ob id=K-EXE-3 kind=C props=C15 timeout=900 fn=complete_cycle_participant flags=stubs,noreplay
